@@ -101,7 +101,9 @@ func c03Options(c dbConc, init c03Step) *tsdb.Options {
 
 func c03Conc(seed int64, init c03Step) dbConc {
 	c := dbMakeConc(seed, init.R, false)
-	c.Snapshot = false // the chunk snapshot is exercised by seeds of the thorough tier only (see c03SnapshotSeed)
+	// EnableMemorySnapshotOnShutdown: only in the thorough tier (seed%5 == 3); the snapshot is opaque to Crash.tla, so the
+	// trace comparison is skipped for those workloads and only the contents are judged
+	c.Snapshot = c.Snapshot && !verifh.Quick()
 	c.STStorage = false
 	return c
 }
@@ -951,6 +953,12 @@ func TestVerifC03Crash(t *testing.T) {
 				return
 			}
 			if run.errLine != "" {
+				if strings.Contains(run.errLine, " Open: ") {
+					// the database does not open after a clean Close inside the workload: "reopening succeeds" is violated without any kill
+					verifh.Violation("open-failed-in-workload", fmt.Sprintf("workload %d: tsdb.Open after a clean Close failed: %s", ci, run.errLine),
+						map[string]any{"workload": cs.W, "seed": seedOf(ci)})
+					return
+				}
 				infra.Store(fmt.Sprintf("workload %d does not run on the real code as generated: %s", ci, run.errLine))
 				return
 			}
@@ -964,7 +972,7 @@ func TestVerifC03Crash(t *testing.T) {
 				modelled[s] = true
 			}
 			// (T) trace comparison
-			if n := len(cs.W); n > 0 && cs.W[n-1].A == "End" && len(cs.Sites) > 0 {
+			if n := len(cs.W); n > 0 && cs.W[n-1].A == "End" && len(cs.Sites) > 0 && !c03Conc(seedOf(ci), cs.W[0]).Snapshot {
 				real := c03Project(run.trace, modelled)
 				if p := os.Getenv("C03_TRACES_OUT"); p != "" {
 					// handed to TLC (Trace_Crash.tla): is this trace a behaviour of Crash.tla for this workload?
@@ -1064,6 +1072,12 @@ func TestVerifC03Crash(t *testing.T) {
 					return
 				}
 				if run.errLine != "" {
+					if strings.Contains(run.errLine, " Open: ") {
+						verifh.Violation("open-failed-in-workload", fmt.Sprintf("workload %d: tsdb.Open after a clean Close failed: %s", j.ci, run.errLine),
+							map[string]any{"workload": cs.W, "seed": seedOf(j.ci)})
+						os.RemoveAll(sc)
+						continue
+					}
 					infra.Store(fmt.Sprintf("workload %d failed in the crash run: %s", j.ci, run.errLine))
 					return
 				}
